@@ -172,7 +172,8 @@ def C19_rotation_after_last_value_edit(case, params):
     return FR.rotation_after_last_value_edit(case, rt.c19_check)
 
 
-_KEY_EDITS = {"u": "cell_universe", "vol": "volume", "fill": "fill_universe", "lat": "lattice"}
+_KEY_EDITS = {"u": ("cell_universe", "universe_number"), "vol": ("volume",),
+              "fill": ("fill_universe", "universe_number"), "lat": ("lattice",)}
 
 
 def C19_moved_value_blanks(case, params):
@@ -181,7 +182,7 @@ def C19_moved_value_blanks(case, params):
     edit): the number of blanks after the changed value on the generated K card depends on whether the cell was
     written in between ('U J 7  7' / 'U J 7 7', 'VOL 6 0.125  100' / 'VOL 6 0.125 100').
     Feature: placement of K towards the data block + an edit of K + the two outputs differ ONLY in blanks, on a line
-    that is a K card.  Ablation: the same program without the edits of K."""
+    that is a K card.  Ablation: the same program without the edits of K (for u / fill also without universe renumberings)."""
     import rt
     if case.get("kind") != "observation-changed-output":
         return False
@@ -193,10 +194,10 @@ def C19_moved_value_blanks(case, params):
         if a != b or not a or a[0].lower().lstrip("*") not in keys:
             return False
         keys = {a[0].lower().lstrip("*")}
-    keys = {k for k in keys if any(e.get("kind") == _KEY_EDITS[k] for e in prog)}
+    keys = {k for k in keys if any(e.get("kind") in _KEY_EDITS[k] for e in prog)}
     if not keys:
         return False
-    drop = {_KEY_EDITS[k] for k in keys}
+    drop = {x for k in keys for x in _KEY_EDITS[k]}
     return rt.c19_check(case["case"], [e for e in prog if e.get("kind") not in drop]) is None
 
 
@@ -278,3 +279,38 @@ def C19_operator_switched_back(case, params):
         return False
     return rt.c19_check(case["case"], [e for e in prog if not (e.get("kind") == "geometry_operator"
                                                                 and e["orig"] in cells)]) is None
+
+
+def C19_amp_after_moved_value(case, params):
+    import rt
+    import findings_rt as FR
+    return FR.amp_after_moved_value(case, rt.c19_check)
+
+
+def C19_operator_switch_drops_comment(case, params):
+    """F-C19-operator-switch-drops-comment: the operator of a cell's geometry is changed (and changed back) and the
+    text between the two sides holds a comment ('$ ...', a C line) or a '&': __switch_operator drops the comment nodes
+    of the operator's padding, so with a write or str() between the two assignments the comment / '&' is gone, without
+    it is kept.  Feature: geometry_operator edits on a cell whose card has a '$', a '&' or an interior comment line.
+    Ablation: without the geometry_operator edits of these cells."""
+    import rt, spec
+    if case.get("kind") != "observation-changed-output":
+        return False
+    c = case["case"]
+    prog = case.get("prog", [])
+    cells = {e["orig"] for e in prog if e.get("kind") == "geometry_operator"}
+    if not cells:
+        return False
+    sp = spec.split_file(c["text"], c.get("width", 80))
+    hit = set()
+    for card in (sp["blocks"] or [[]])[0]:
+        toks = spec.tokens(card.text)
+        if not toks or not toks[0].isdigit() or int(toks[0]) not in cells:
+            continue
+        body = card.lines[:-1] if len(card.lines) > 1 else []
+        if any("$" in l or l.rstrip().endswith("&") or spec.is_comment_line(l) for l in body) or \
+                (card.lines and card.lines[-1].rstrip().endswith("&")):
+            hit.add(int(toks[0]))
+    if not hit:
+        return False
+    return rt.c19_check(c, [e for e in prog if not (e.get("kind") == "geometry_operator" and e["orig"] in hit)]) is None
